@@ -60,6 +60,8 @@ type c16Case struct {
 	// Chunked: the client hands over a reader of unknown length, so the request is sent with chunked transfer encoding and
 	// the server sees ContentLength == -1
 	Chunked bool `json:"unknown_length,omitempty"`
+	// Header: the Content-Encoding value actually sent (another spelling of Alg's name), by a raw client
+	Header string `json:"content_encoding_header,omitempty"`
 }
 
 var c16Default = []string{"", "gzip", "zstd", "zlib", "snappy", "deflate", "lz4"} // documented default of compression_algorithms
@@ -379,10 +381,15 @@ func c16Run(e *c16Env, c c16Case) (string, string) {
 	e.calls, e.read, e.readErr, e.rawLen = 0, nil, nil, -1
 	var resp *http.Response
 	var err error
-	if strings.HasPrefix(c.Kind, "bomb") {
+	if strings.HasPrefix(c.Kind, "bomb") || c.Header != "" {
 		comp := c16Compress(c.Alg, in)
 		req, _ := http.NewRequest(http.MethodPost, e.ts.URL, bytes.NewReader(comp))
 		req.Header.Set("Content-Encoding", c.Alg)
+		if c.Header != "" {
+			// the algorithm's name in another spelling: what is not enabled stays not enabled however it is spelled
+			req.Header.Set("Content-Encoding", c.Header)
+			desc += fmt.Sprintf(" content-encoding-header=%q", c.Header)
+		}
 		e.rawLen = int64(len(comp))
 		resp, err = http.DefaultClient.Do(req)
 	} else {
@@ -411,6 +418,11 @@ func c16Run(e *c16Env, c c16Case) (string, string) {
 	}
 	size, wire := int64(len(in)), e.rawLen
 	switch {
+	case isEnabled && c.Header != "":
+		// an enabled algorithm under another spelling of its name: accepted or rejected, but never wrong bytes
+		if e.calls == 1 && e.readErr == nil && !bytes.Equal(e.read, in) {
+			return "wrong-bytes", desc + ": the handler read wrong bytes without error"
+		}
 	case !isEnabled:
 		if e.calls != 0 || resp.StatusCode/100 != 4 {
 			return "not-enabled-encoding-not-rejected", fmt.Sprintf("%s: handler calls=%d status=%d", desc, e.calls, resp.StatusCode)
@@ -568,6 +580,11 @@ func TestVerif(t *testing.T) {
 					}
 				}
 				if alg != "" {
+					// other spellings of the algorithm's name (content-coding names are case-insensitive in HTTP; this server
+					// matches exactly): whatever it does with them, an algorithm that is NOT enabled is not decoded
+					for _, hdr := range []string{strings.ToUpper(alg), strings.ToUpper(alg[:1]) + alg[1:], alg[:len(alg)-1] + strings.ToUpper(alg[len(alg)-1:])} {
+						run(c16Case{Alg: alg, Kind: "pattern", Size: 48, Header: hdr})
+					}
 					run(c16Case{Alg: alg, Kind: "bomb-zeros", Size: 8 * 1024 * 1024})
 				}
 			}
